@@ -39,7 +39,10 @@ G0 == [ sc      |-> "none",
         feats   |-> {},
         vfacts  |-> <<>>,      \* version token -> set of statements (facts)
         vpar    |-> <<>>,      \* version token -> set of parent tokens
-        vcre    |-> <<>>,      \* version token -> creation time token
+        vcre    |-> <<>>,      \* version token -> creation time token: the (imposed) open / refresh time of the handle that wrote it
+        cwhen   |-> <<>>,      \* client -> the imposed time of its last successful open / refresh
+        wpend   |-> <<>>,      \* client -> the imposed time of the open / refresh it is inside of
+        forget  |-> {},        \* statements that some s3db_vacuum call of the scenario was entitled to forget
         vby     |-> <<>>,      \* version token -> client that PUT it
         cur     |-> {},        \* bucket: tokens under root/current
         mrg     |-> {},        \* bucket: tokens under root/merged
@@ -157,6 +160,9 @@ Unexpected(e, what) ==
 OnReset(e) ==
   [g2 |-> [G0 EXCEPT !.sc = e.sc, !.feats = Range(e.features)], v |-> {}]
 
+VacuumMayReclaim(p, cutoff) ==
+  LET ch == {x \in DOMAIN g.vpar : p \in g.vpar[x]} IN ch # {} /\ \A x \in ch : Get(g.vcre, x, 0) <= cutoff
+
 OnS3(e) ==
   LET c == e.c
       \* the content of a version is known when it is PUT: its parents' facts, what its writer had accepted and
@@ -169,7 +175,9 @@ OnS3(e) ==
                            !.taint = @ \cup Get(g.everins, c, {}),
                            !.vfacts = IF e.name \in DOMAIN @ THEN @ ELSE Put(@, e.name, putfacts),
                            !.vpar = Put(@, e.name, Range(e.parents)),
-                           !.vcre = Put(@, e.name, e.created),
+                           \* (not the time the version object claims for itself: a version that inherits a stale creation
+                           \* time would make a vacuum reclaim what its cutoff does not cover)
+                           !.vcre = Put(@, e.name, IF c \in DOMAIN g.wpend THEN g.wpend[c] ELSE IF c \in DOMAIN g.cwhen THEN g.cwhen[c] ELSE e.created),
                            !.vby  = Put(@, e.name, c),
                            !.txputs = Put(@, c, Get(@, c, 0) + 1),
                            !.fresh = Put(@, c, Get(@, c, <<>>) \o <<e.name>>)]
@@ -178,7 +186,10 @@ OnS3(e) ==
             ELSE IF e.op = "DELETE" /\ e.res = "ok" /\ e.cls = "cur"
             THEN [g EXCEPT !.cur = @ \ {e.name}, !.stepdel = Put(@, c, Get(@, c, {}) \cup {<<"cur", e.name>>})]
             ELSE IF e.op = "DELETE" /\ e.res = "ok" /\ e.cls = "mrg"
-            THEN [g EXCEPT !.mrg = @ \ {e.name}, !.vgone = @ \cup {e.name}, !.stepdel = Put(@, c, Get(@, c, {}) \cup {<<"mrg", e.name>>})]
+            THEN [g EXCEPT !.mrg = @ \ {e.name},
+                           \* removed by a vacuum that was entitled to: every successor was created at or before its cutoff
+                           !.vgone = IF c \in DOMAIN g.invac /\ VacuumMayReclaim(e.name, g.invac[c]) THEN @ \cup {e.name} ELSE @,
+                           !.stepdel = Put(@, c, Get(@, c, {}) \cup {<<"mrg", e.name>>})]
             ELSE g
       ro == Get(g.cmode, c, "rw") \in {"ro", "hist"}
   IN [g2 |-> g1,
@@ -197,13 +208,15 @@ Finalize(gg, c, pend) ==
 OnCall(e) ==
   LET c == e.c IN
   [g2 |-> IF e.op = "stmt" /\ e.intx = 0 THEN [g EXCEPT !.inflight = Put(@, c, StmtOf(e)), !.fresh = Put(@, c, <<>>)]
-          ELSE IF e.op = "vacuum" THEN [g EXCEPT !.invac = Put(@, c, e.cutoff), !.fresh = Put(@, c, <<>>)]
+          ELSE IF e.op = "vacuum" THEN [g EXCEPT !.invac = Put(@, c, e.cutoff), !.fresh = Put(@, c, <<>>),
+                                                  !.forget = @ \cup (Get(g.cfacts, c, {}) \ R!Purge(Get(g.cfacts, c, {}), e.cutoff))]
           ELSE IF e.op \in {"commit"} THEN [g EXCEPT !.fresh = Put(@, c, <<>>)]
           ELSE g,
    v |-> {}]
 
 OnOpenStart(e) ==
   [g2 |-> [g EXCEPT !.fresh = Put(@, e.c, <<>>),
+                    !.wpend = IF Has(e, "when") THEN Put(@, e.c, e.when) ELSE @,
                     !.ackedAt = Put(@, e.c, FactsOfVersions(g.acked)),
                     !.cmode = IF e.mode = "refresh" THEN @ ELSE Put(@, e.c, e.mode)],
    v |-> {}]
@@ -211,7 +224,7 @@ OnOpenStart(e) ==
 OnOpenDone(e) ==
   LET c == e.c IN
   IF e.outcome # "ok"
-  THEN [g2 |-> g, v |-> Unexpected(e, "open")]
+  THEN [g2 |-> [g EXCEPT !.wpend = [x \in DOMAIN @ \ {c} |-> @[x]]], v |-> Unexpected(e, "open")]
   ELSE IF PastDeadline(c) /\ e.dr > 0
   THEN [g2 |-> g, v |-> V("C15", "C15_DeadlineApplies", e, [requests |-> e.dr])]
   ELSE
@@ -226,6 +239,8 @@ OnOpenDone(e) ==
                        !.cver = Put(@, c, vers),
                        !.everins = Put(@, c, {}),
                        !.obs = @ \cup {<<facts, rows>>},
+                       !.cwhen = IF Has(e, "when") THEN Put(@, c, e.when) ELSE @,
+                       !.wpend = [x \in DOMAIN @ \ {c} |-> @[x]],
                        !.lastrows = Put(@, c, rows)]
       v1 == IF e.rows_outcome = "ok" THEN CheckRows(e, c, facts, rows, "open")
             ELSE Unexpected([e EXCEPT !.outcome = e.rows_outcome, !.err = e.rows_err], "read after open")
@@ -243,8 +258,9 @@ OnOpenDone(e) ==
       v5 == IF Has(e, "same") /\ e.rows_outcome = "ok" /\ rows # Get(g.lastrows, c, {})
             THEN V(e.same, e.same \o "_RowsUnchanged", e, [before |-> Get(g.lastrows, c, {}), after |-> rows]) ELSE {}
       \* C03: the opener's view contains every version whose commit had returned before its open began
-      v6 == IF ~(Get(g.ackedAt, c, {}) \subseteq facts)
-            THEN VAll({"C03", "C04", "C14"}, "_OpenSeesAcked", e, [missing |-> Get(g.ackedAt, c, {}) \ facts, versions |-> vers]) ELSE {}
+      \* (what a vacuum - even one that died after its purge commit - may have forgotten is not missing)
+      v6 == IF ~((Get(g.ackedAt, c, {}) \ g.forget) \subseteq facts)
+            THEN VAll({"C03", "C04", "C14"}, "_OpenSeesAcked", e, [missing |-> (Get(g.ackedAt, c, {}) \ g.forget) \ facts, versions |-> vers]) ELSE {}
       \* C03: a final open of the quiescent bucket contains every acknowledged commit
       v7 == IF Has(e, "tag") /\ e.tag = "final" /\ ~(FactsOfVersions(g.acked) \subseteq facts)
             THEN VAll({"C03", "C19"}, "_EventuallyContained", e, [missing |-> FactsOfVersions(g.acked) \ facts, versions |-> vers]) ELSE {}
@@ -262,7 +278,8 @@ OnStmt(e) ==
       after == before \cup (IF acc THEN {f} ELSE {})
       pend == Get(g.cpend, c, {}) \cup (IF acc THEN {f} ELSE {})
       a0 == Get(g.attr, c, [deadline |-> -1, write_time |-> -1])
-      leak0 == IF e.outcome # "ok" /\ e.intx = 0 /\ e.kind = "ins" THEN {e.key} ELSE {}
+      \* (an INSERT refused by a constraint is refused before anything is written: it cannot leak)
+      leak0 == IF e.outcome = "error" /\ e.intx = 0 /\ e.kind = "ins" THEN {e.key} ELSE {}
       g0 == [g EXCEPT !.cfacts = Put(@, c, after),
                       !.txins = IF acc /\ e.kind = "ins" /\ e.intx = 1 THEN Put(@, c, Get(@, c, {}) \cup {e.key}) ELSE @,
                       !.everins = IF acc /\ e.kind = "ins" THEN Put(@, c, Get(@, c, {}) \cup {e.key}) ELSE @,
@@ -290,7 +307,8 @@ OnStmt(e) ==
             THEN V("C11", "C11_ChangesOnChange", e, [version |-> prevver]) ELSE {}
       v5 == IF e.intx = 1 /\ e.dm > 0
             THEN V("C05", "C05_NothingLeaksEarly", e, [mutations |-> e.dm]) ELSE {}
-      v6 == IF e.outcome = "error" /\ ~ro THEN Unexpected(e, "statement") ELSE {}
+      \* (a statement carrying a value that cannot be stored - TEXT that is not UTF-8 - may be refused with an error)
+      v6 == IF e.outcome = "error" /\ ~ro /\ ~(Has(e, "unstorable") /\ e.unstorable) THEN Unexpected(e, "statement") ELSE {}
       v7 == IF PastDeadline(c) /\ e.outcome = "ok" /\ e.dm > 0
             THEN V("C15", "C15_DeadlineApplies", e, [mutations |-> e.dm]) ELSE {}
       \* a statement in autocommit mode that reports failure has published no version
